@@ -3,7 +3,6 @@ package sim
 import (
 	"context"
 	"fmt"
-	"net"
 	"runtime/debug"
 	"strconv"
 	"strings"
@@ -13,10 +12,7 @@ import (
 	corev3 "github.com/envoyproxy/go-control-plane/envoy/config/core/v3"
 	envoy "github.com/envoyproxy/go-control-plane/envoy/service/auth/v3"
 	"github.com/lestrrat-go/jwx/v2/jwk"
-	"google.golang.org/grpc"
 	"google.golang.org/grpc/codes"
-	"google.golang.org/grpc/credentials/insecure"
-	"google.golang.org/grpc/test/bufconn"
 
 	configv1 "github.com/istio-ecosystem/authservice/config/gen/go/v1"
 	oidcv1 "github.com/istio-ecosystem/authservice/config/gen/go/v1/oidc"
@@ -84,8 +80,8 @@ type WorldOpts struct {
 	Binary         bool   // run the built service binary (cmd/main.go) as a child process and talk gRPC to it
 	// DiscoveryExplicit (with Discovery): the endpoints are spelled out as well and the keys come from jwks_fetcher
 	DiscoveryExplicit bool
-	// ViaGRPC (with ViaServer, in process): checks travel through the gRPC server the service runs - request-id and
-	// logging interceptors included - over an in-memory listener
+	// ViaGRPC (with ViaServer, in process): checks travel through the interceptor chain of the gRPC server the service
+	// runs (request-id propagation, logging middleware) and the answer is serialised; only the socket is left out
 	ViaGRPC bool
 	// RawKeyProvider: the service gets the real key provider itself, not the fault-injecting wrapper around it (the
 	// wrapper hides any further interface the provider implements)
@@ -334,25 +330,10 @@ func NewWorld(c *Case, o WorldOpts) *World {
 		startProv()
 	}
 	if o.ViaGRPC && w.Filter != nil {
-		lis := bufconn.Listen(1 << 20)
-		srv := server.New(full, w.Filter.Register)
-		srv.Listen = func() (net.Listener, error) { return lis, nil }
-		if err := srv.PreRun(); err != nil {
-			panic(err)
-		}
-		go func() { _ = srv.Serve() }()
-		conn, err := grpc.NewClient("passthrough:///bufnet", grpc.WithTransportCredentials(insecure.NewCredentials()),
-			grpc.WithContextDialer(func(ctx context.Context, _ string) (net.Conn, error) { return lis.DialContext(ctx) }))
-		if err != nil {
-			panic(err)
-		}
-		client := envoy.NewAuthorizationClient(conn)
+		through := ThroughInterceptors(w.Filter)
 		w.grpcCheck = func(req *envoy.CheckRequest) (*envoy.CheckResponse, error) {
-			ctx, cancel := context.WithTimeout(context.Background(), 30*time.Second)
-			defer cancel()
-			return client.Check(ctx, req)
+			return through(context.Background(), req)
 		}
-		w.stopGRPC = func() { _ = conn.Close(); srv.GracefulStop() }
 	}
 	return w
 }
